@@ -363,6 +363,42 @@ func c03Codec(c *fw.Ctx, idx int) {
 	c03CodecOn(c, g, m)
 }
 
+// c03EveryLength: a line string, a multipoint and a polygon of exactly idx
+// coordinates for idx = 0, 1, 2, ..., one of the six formats each (rotating with
+// idx, so that every format meets every residue of idx modulo 2, 3, 5, 7 within
+// 420 lengths): everything c03Codec checks.  Encoders and decoders that move
+// ordinates in blocks have their seams at some length.
+func c03EveryLength(c *fw.Ctx, idx int) {
+	n := idx
+	layout := gen.StdLayouts[(idx/6)%4]
+	stride := layout.Stride()
+	m := wkbModes[idx%len(wkbModes)]
+	co := func(i int) []float64 {
+		v := make([]float64, stride)
+		for k := range v {
+			v[k] = float64((i*stride+k)%9973) + 0.25
+		}
+		return v
+	}
+	line := make([][]float64, n)
+	for i := range line {
+		line[i] = co(i)
+	}
+	gs := []*model.G{{Kind: model.LineString, Layout: layout, C1: line}, {Kind: model.MultiPoint, Layout: layout, C1: line}}
+	if n >= 4 {
+		ring := append(append([][]float64{}, line[:n-1]...), append([]float64{}, line[0]...))
+		gs = append(gs, &model.G{Kind: model.Polygon, Layout: layout, C2: [][][]float64{{co(1), co(2), co(3), co(1)}, ring}})
+	}
+	for _, g := range gs {
+		if m.o.EWKB {
+			g.SRID = 4326
+		}
+		c.SetInput(map[string]any{"geometry": fmt.Sprintf("%s %s of exactly %d coordinates, ordinate i = (i mod 9973) + 0.25", g.Kind, layout, n), "mode": m.name})
+		c03CodecOn(c, g, m)
+	}
+	c.Count("lengths_encoded_and_decoded")
+}
+
 // c03Huge: coordinate arrays of 65,536 .. 1.2 million ordinates (on and next to
 // multiples of 65,536), as a linestring, as a ring after a small ring, as a
 // member of a multi-geometry; everything c03Codec checks
@@ -1355,6 +1391,7 @@ func init() {
 			{Name: "sql", Quick: 24000, Thorough: 1200000, Run: c03SQL},
 			{Name: "unsupported-layout", Quick: 2000, Thorough: 60000, Run: c03Unsupported},
 			{Name: "huge", Quick: 30, Thorough: 1800, Chunk: 1, Run: c03Huge},
+			{Name: "every-length", Quick: 5041, Thorough: 20161, Chunk: 40, Run: c03EveryLength, Exhaustive: "line string, multipoint and polygon of every number of coordinates from 0 to the class count"},
 			{Name: "observed-during-write", Quick: 8, Thorough: 192, Chunk: 1, Run: c03Observed},
 		},
 		Require: []string{"bytes_compared", "mode_wkb-ndr", "mode_wkb-xdr", "mode_wkb-nan-ndr", "mode_ewkb-ndr", "mode_ewkb-xdr", "empty_point_rejected_in_wkb_error_mode", "encoded_with_empty_point",
